@@ -7,7 +7,7 @@ CPUS = {
     "msp430": (2, 8, 140, "thorough", ["STRINGS_ABSTRACT", "CLASS_MASK=0xffbf", "CLASS_VAL=0x41b3"], False),
     "msp430.pop_x_r3": (2, 8, 140, "quick", ["STRINGS_ABSTRACT", "CLASS_MASK=0xffbf", "CLASS_VAL=0x41b3", "CLASS_ONLY"], False),
     "6502": (1, 3, 140, "quick", [], False),
-    "avr8": (2, 4, 140, "quick", [], False),
+    "avr8": (2, 4, 140, "quick", ["SPEC_AVR8_LEN"], False),
     "lc3": (2, 2, 140, "quick", [], False),
     "8008": (1, 3, 140, "quick", [], False),
     "1802": (1, 3, 140, "quick", ["CLASS_MASK=0xff", "CLASS_VAL=0x68"], False),
@@ -26,7 +26,7 @@ CPUS = {
     "m8c": (1, 3, 300, "quick", [], False),
     "sweet16": (1, 3, 300, "quick", [], False),
     "65816": (1, 4, 300, "quick", [], False),
-    # stm8 was tried (table scan needs more than 300 unwindings; with 900 it does not finish in 900 s): not decided
+    "stm8": (1, 5, 900, "thorough", ["STRINGS_ABSTRACT"], False),
     # z80 (reads ahead, 2-safety form) was tried and does not finish (out of memory at 10 GB, timeout at 2400 s with 30 GB): not decided
 }
 GROUPS = []
@@ -39,7 +39,7 @@ for cpuname, (unit, maxlen, unw, tier, tables, two) in CPUS.items():
     GROUPS.append(Group(name="C08/disasm_%s" % cpuname, unity="C08/u_dis.cpp", entry="h_dis", c_sources=(["common/st_hash.c"] if "STRINGS_HASH" in tables else [] if "STRINGS_ABSTRACT" in tables else ["common/st_fmt.c"]),
                         functions=[("disasm_%s" % cpu, "disasm/%s.cpp" % cpu, "harness; table scans closed by unwinding %d with unwinding assertions" % unw),
                                    ("table_%s[]" % cpu, "table/%s.cpp" % cpu, "data")],
-                        defines=defs, unwind=unw, checks=CH, timeout=(2400 if two else 900), mem_gb=(30 if two else 10), tier=tier, extra_cbmc=(["--object-bits", "14"] if two else [])))
+                        defines=defs, unwind=unw, checks=CH, timeout=(2400 if two or cpu == "stm8" else 900), mem_gb=(30 if two or cpu == "stm8" else 10), tier=tier, extra_cbmc=(["--object-bits", "14"] if two else [])))
 for cpu, unit, maxlen, note in (("tms9900", 2, 6, "discharged by C08/disasm_tms9900"), ("6800", 1, 3, "discharged by C08/disasm_6800"), ("68hc08", 1, 4, "discharged by C08/disasm_68hc08"), ("6809", 1, 5, "ASSUMED: C08/disasm_6809 does not finish"), ("z80", 1, 4, "ASSUMED: C08/disasm_z80 does not finish")):
     GROUPS.append(Group(name="C08/disasm_range_%s" % cpu, unity="C08/u_range.cpp", entry="h_range",
                         functions=[("disasm_range_%s" % cpu, "disasm/%s.cpp" % cpu, "harness+2 loop-contracts, any range (function text extracted verbatim)"), ("disasm_%s" % cpu, "disasm/%s.cpp" % cpu, "replaced by its contract (length %d..%d), %s" % (unit, maxlen, note))],
